@@ -94,7 +94,7 @@ def deg_points(ctx):
     if not ctx.thorough:
         grid = sorted(r.sample(grid, 3000))
     pts += [(k / 64.0, 'grid-1/64') for k in grid]
-    pts += common_points(r, 20000 if ctx.thorough else 900, 1e6)
+    pts += common_points(r, 8000 if ctx.thorough else 900, 1e6)
     return pts
 
 
@@ -114,7 +114,7 @@ def rad_points(ctx):
     if not ctx.thorough:
         grid = sorted(r.sample(grid, 1200))
     pts += [(k / float(step), 'grid-1/%d' % step) for k in grid]
-    pts += common_points(r, 8000 if ctx.thorough else 500, 1e6)
+    pts += common_points(r, 4000 if ctx.thorough else 500, 1e6)
     return pts
 
 
@@ -173,9 +173,11 @@ def coq_lit(x):
     return '(%s)%%float' % h
 
 
-def run_model(ctx, cases):
-    """cases: list of (model_fn_name, float). Returns list of float-hex strings (or 'nan'/'inf'/'-inf')."""
-    vf.coq_make(['theories/Models/HeadingF.vo'])
+def run_model(ctx, cases, build=True):
+    """cases: list of (model_fn_name, float). Returns list of float-hex strings (or 'nan'/'inf'/'-inf').
+    build=False when Models/HeadingF.vo is known to be up to date (the property closure was just built)."""
+    if build:
+        vf.coq_make(['theories/Models/HeadingF.vo'])
     d = os.path.join(ctx.tmp, 'shards'); os.makedirs(d, exist_ok=True)
     names = []
     for i in range(0, len(cases), SHARD):
@@ -311,13 +313,19 @@ def run(ctx):
                     fail({'fn': 'roundtrip', 'unit': unit, 'class': 'not-inverse-modulo-full-turn', 'order': key},
                          '%s = %r for x = %r (%s): not x modulo a full turn' % (names, r, x, unit),
                          {'fn': 'roundtrip-' + key, 'unit': unit, 'x_hex': x.hex(), 'x': repr(x), 'impl': rh}, x)
+    # advisory: which unit a call without `deg` uses (not part of the property; never an alarm)
+    du = impl.get('default_unit', {})
+    for which in ('y2h', 'h2y'):
+        got = du.get(which, [])
+        same = got == impl['%s_deg' % which]['scalar'][:len(got)]
+        ctx.notes.append('advisory: %s(x) without deg %s %s(x, deg=True) on %d inputs' % (FN[which], 'equals' if same else 'DIFFERS from', FN[which], len(got)))
     ctx.log('IMPL vs SPEC done: %d failing signature(s)' % len(failures))
     for k in sorted(failures):
         _, sig, text, case = failures[k]
         ctx.violation(sig, text, case)
 
     # correspondence with the binary64 model
-    mres = run_model(ctx, model_cases)
+    mres = run_model(ctx, model_cases, build=not getattr(ctx, 'coq_ok', False))
     ctx.log('MODEL done (%d evaluations)' % len(model_cases))
     nbad = 0
     for (case, rs), m in zip(model_slots, mres):
